@@ -43,6 +43,11 @@ CHECKS = {
   text="Every fact base of up to 2 (quick) / 3 (thorough) facts over a witness domain with ground, partially bound, variant and non-variant clause-local variables is queried with findall/bagof/setof under every template, ^-set, goal shape and instance argument; the complete answer set (groups, their contents and order inside a group, the bindings of the free variables, goal variables left unbound) must equal the reference's.",
   note="Trusted: the reference all-solutions algorithm (ISO 8.10.1-3, 7.1.1.4), self-checked against the ISO examples. Group order is deliberately not compared.",
   design="DESIGN.md §3 C11"),
+ "C16": dict(
+  technique="bounded-exhaustive enumeration of call patterns on the real interpreter against relations computed by brute force: every instantiation pattern the modes admit x every combination of bound values (matching and non-matching), answers compared as multisets; infinite / variable-creating modes against the reference machine",
+  text="For each of the 17 predicates the complete relation over a finite domain (multi-byte characters, lists, integers near the 64-bit limits) is enumerated by brute force and every admissible call pattern is compared with the matching subset of the relation, each tuple exactly once - which also yields the monotonicity clause of the property.",
+  note="Trusted: ref/relations (brute-force definitions in terms of runes and positions); member/select answer once per occurrence.",
+  design="DESIGN.md §3 C16"),
  "C07": dict(
   technique="bounded-exhaustive enumeration of the complete boundary-value grid (all functors x all operand pairs, all depth-2 trees over a reduced grid) on the real evaluator, each case compared with a math/big + IEEE-754 reference model",
   text="Every evaluable functor of the statement is run on the complete cross product of an integer and a float boundary grid (all int/float combinations), all shift counts, all six comparisons, and all depth-2 trees over a reduced grid; each result is compared with an exact reference (math/big integers, IEEE-754 doubles). Exhaustive within the grid: a wrong boundary test, a float detour or a sign slip in any of the per-type helpers shows up as a concrete expression.",
